@@ -240,6 +240,26 @@ fn main() {
             format!("{out} files={}", fs.join(","))
         }
         // sigplusn <file> <begin> <size> <sigpos>: is the signature + modulus (a different byte string) accepted too?
+        // signmany <signed archive> <begin> <size> <signature pos> <count>: sign <count> variants of the content (one byte outside the signature
+        //   region varied) and verify each signature the library made: all must verify (also those whose value has leading zero bytes)
+        "signmany" => {
+            let mut buf = std::fs::read(t[1]).unwrap();
+            let (begin, size, sp, count) = (num(t[2]), num(t[3]), num(t[4]) as usize, num(t[5]));
+            let info = SignatureInfo::new_weak(begin, size, sp as u64, WEAK_SIGNATURE_FILE_SIZE as u64, vec![]);
+            let mut spots: Vec<usize> = ((begin as usize + 32)..((begin + size) as usize)).filter(|p| !(sp..sp + WEAK_SIGNATURE_FILE_SIZE).contains(p)).take(3).collect();
+            if spots.len() < 3 { spots = vec![begin as usize + 32; 3]; }
+            let (mut bad, mut short) = (Vec::new(), 0u64);
+            for i in 0..count {
+                buf[spots[0]] = i as u8; buf[spots[1]] = (i >> 8) as u8; buf[spots[2]] = (i >> 16) as u8;
+                for b in &mut buf[sp..sp + WEAK_SIGNATURE_FILE_SIZE] { *b = 0; }
+                let sf = match generate_weak_signature(Cursor::new(&buf), &info) { Ok(s) => s, Err(e) => return format!("ERR {}", errclass(&e)) };
+                let sig = match parse_weak_signature(&sf) { Ok(s) => s, Err(e) => return format!("ERR {}", errclass(&e)) };
+                if sig[63] == 0 { short += 1; }
+                buf[sp..sp + WEAK_SIGNATURE_FILE_SIZE].copy_from_slice(&sf);
+                if !verify_weak_signature_stormlib(Cursor::new(&buf), &sig, &info).unwrap_or(false) { bad.push(i); }
+            }
+            format!("SIGNED {count} ZERO-TOP-BYTE {short} REJECTED {}", if bad.is_empty() { "-".to_string() } else { bad.iter().take(5).map(|x| x.to_string()).collect::<Vec<_>>().join(",") })
+        }
         "sigplusn" => {
             let mut buf = std::fs::read(t[1]).unwrap();
             let (begin, size, sp) = (num(t[2]), num(t[3]), num(t[4]) as usize);
